@@ -35,6 +35,9 @@ def pairs(rnd, tier, big=True):
             out.append(('other-hashtype/c%d' % ci, Z.make(base, **other).build(), Z.make(edit(rnd, base), **cfg)))
             dup = [base[0], base[1], base[0], base[1], base[0]]
             out.append(('duplicates/c%d' % ci, Z.make([base[1], base[2]], **cfg).build(), Z.make(dup, **cfg)))
+            # identical neighbours: a chunk followed by a copy of itself (a scan working from stale buffers would trust a partial copy)
+            adj = [base[0], base[1], base[1], base[2], base[2], base[2]]
+            out.append(('adjacent-dup/c%d' % ci, Z.make([base[1]], **cfg).build() if rnd.random() < 0.5 else None, Z.make(adj, **cfg)))
             out.append(('reordered/c%d' % ci, Z.make(list(reversed(base)), **cfg).build(), A))
         if ci == 3:
             out.append(('other-dict/c%d' % ci, Z.make(base, zdict=FG.text(rnd, 91), **cfg).build(), Z.make(edit(rnd, base), zdict=zd, **cfg)))
@@ -66,6 +69,7 @@ def targets(rnd, Abytes, B):
     for k, c in enumerate(B.chunks[:7]):
         off += c['comp_len']
         if 0 < c['comp_len'] and off < len(bB): t['cut-after-chunk%d' % k] = bB[:off]
+        if c['comp_len'] > 2: t['cut-inside-chunk%d' % k] = bB[:off - rnd.randrange(1, c['comp_len'])]
     return t
 
 class Writer:
